@@ -232,6 +232,16 @@ class CaseOf(list):
         self.pairs = list(pairs)
 
 
+class QuantifierFree(list):
+    """clause extra: this clause does not depend on the quantified hypotheses (type / cache invariants): they are left
+    out of its query.  Proving from fewer hypotheses is sound; and when the clause FAILS the solver does not have to
+    build a model of the quantified facts, so the failure is decided (a 'quantifier-free companion' of a quantified
+    clause).  A refutation found this way is reported without the quantified facts having been taken into account"""
+
+    def __bool__(self):          # (an empty list of extra hypotheses, but not "no extra")
+        return True
+
+
 def _norm(entries):
     """contract clauses: (label, formula) or (label, formula, extra) where extra is 'callers'
     (a precondition clause only callers must establish; not assumed when verifying the body)
@@ -563,6 +573,9 @@ class Exec:
                fn=self.fname, line=line, witness=w)
         if isinstance(hyps_extra, CaseOf):
             o.meta['subst'] = hyps_extra.pairs
+        if isinstance(hyps_extra, QuantifierFree):
+            o.hyps = [h for h in o.hyps if not _has_quantifier(h)]
+            o.meta['quantified_hyps_left_out'] = True
         self.obs.append(o)
         return o
 
@@ -1087,6 +1100,8 @@ class Exec:
         self.global_hyps[:] = self.finish_hyps()
         for o in self.obs:
             o.hyps = list(self.global_hyps) + o.hyps
+            if o.meta.get('quantified_hyps_left_out'):
+                o.hyps = [h for h in o.hyps if not _has_quantifier(h)]
         return self.obs
 
     def run(self):
@@ -1158,6 +1173,8 @@ class Exec:
         self.global_hyps[:] = self.finish_hyps()
         for o in self.obs:
             o.hyps = list(self.global_hyps) + o.hyps
+            if o.meta.get('quantified_hyps_left_out'):
+                o.hyps = [h for h in o.hyps if not _has_quantifier(h)]
         return self.obs
 
     def restate_pre(self, st, c0):
@@ -2453,6 +2470,12 @@ class Exec:
                 if av is not None:
                     st.ghost['tmp:arg:%s:%s' % (name, pn)] = av
                     recorded.add('tmp:arg:%s:%s' % (name, pn))
+            for pn, nwords in getattr(con, 'record_words', {}).items():
+                # the first words of what a pointer argument points to, as they are at the call
+                for k_ in range(nwords):
+                    key_ = 'tmp:arg:%s:%s[%d]' % (name, pn, k_)
+                    st.ghost[key_] = self.load_raw(st, argmap[pn] + BV(8 * k_, 64) if k_ else argmap[pn], 8)
+                    recorded.add(key_)
         old = st.copy()
         c = Ctx(self, argmap, old)
         for label, p, extra in _norm(con.pre(c)):
